@@ -81,6 +81,10 @@ pub struct SimCfg {
     /// different limits on every connection (e.g. a lower Receive Maximum after a resumed reconnect)
     #[serde(default)]
     pub connack_alt: Option<ConnackTemplate>,
+    /// n > 0: the broker has lost the session on every n-th connection (its CONNACK says "no session" although the
+    /// client asked to resume) whenever the simulator answers the CONNECT on its own
+    #[serde(default)]
+    pub session_loss_every: u8,
 }
 
 impl Default for SimCfg {
@@ -105,6 +109,7 @@ impl Default for SimCfg {
             drain: true,
             first_pid: 0,
             connack_alt: None,
+            session_loss_every: 0,
         }
     }
 }
